@@ -44,4 +44,6 @@ RULES = [
     ("P3", pool.P3_route, ["default"]),
     ("C14.1", C14_1, ["default"]),
     ("E-WAKER", pool2.E_WAKER_pool, ["default"]),
+    # the abandoned attempt is continued: the pinned drop spawns exactly what as_delayed() returned, whenever it returned something
+    ("P10s", pool2.P10_aspects("spawn"), ["default"]),
 ]
